@@ -24,7 +24,7 @@ func init() {
 			"Field level (hooks VerifField*): Add/Subtract/Negate/Multiply/Square/Invert/Absolute/Pow22523/IsNegative/Equal/Mult32/Select/Swap/SqrtRatio and nine expressions with non-canonical intermediates against math/big modulo 2^255-19 on operands whose five 51-bit limbs are each one of {0, 1, 19, 2^50, 2^51-19, 2^51-2, 2^51-1} (every 7th of the 16807 patterns quick, all thorough), encodings p..p+18 with and without bit 255, seeded pairs. " +
 			"distinct_nontrivial = distinct (case class, operand pattern) keys",
 		Floors: []string{"keys_equal_std", "signatures_equal_std", "verify_agree_accept", "verify_agree_reject", "small_order_inputs", "noncanonical_inputs", "s_plus_L_inputs", "forged_small_order_accepted_by_both", "bitflips", "generatekey_same_as_std",
-			"cold_start_verify_agrees", "identity_key_high_s", "hook_scalar_ops", "hook_point_decode", "hook_scalar_mult", "hook_modinverse", "model_agrees_with_std", "hook_limb_pattern_scalars", "hook_reduce_chosen_residue", "hook_modinverse_chosen_result", "hook_word_structured_scalars", "hook_field_limb_patterns", "hook_field_noncanonical", "hook_field_seeded", "history_verify_agree_accept", "history_verify_agree_reject", "special_relation_signatures", "special_string_messages"},
+			"cold_start_verify_agrees", "identity_key_high_s", "hook_scalar_ops", "hook_point_decode", "hook_scalar_mult", "hook_modinverse", "model_agrees_with_std", "hook_limb_pattern_scalars", "hook_reduce_chosen_residue", "hook_modinverse_chosen_result", "hook_word_structured_scalars", "hook_field_limb_patterns", "hook_field_noncanonical", "hook_field_seeded", "history_verify_agree_accept", "history_verify_agree_reject", "special_relation_signatures", "special_string_messages", "generatekey_repeated_entropy_same_as_std", "key_slice_reused_signs_as_its_contents"},
 		Assumptions: []string{"crypto/ed25519 of the Go toolchain that builds the harness is the reference", "the math/big model is cross-checked against crypto/ed25519 in the same run (class model_agrees_with_std)"},
 		SelfCheck:   []string{"model_disagrees_with_std"},
 		Run:         runC14,
@@ -403,6 +403,68 @@ func runC14(c *core.Ctx) {
 		}
 	}
 	c.Exhaustive("GenerateKey: fault positions 0..33 x 4 chunkings")
+	// consecutive GenerateKey calls whose readers deliver the SAME bytes (a deterministic source read twice, two
+	// processes seeded alike): each call is judged on its own, like crypto/ed25519 does
+	if c.Next() {
+		for rep := 0; rep < 6; rep++ {
+			var keys [][]byte
+			for call := 0; call < 3; call++ {
+				r1 := &scriptedReader{src: c.IdxRng("gk-repeat", int64(rep)), budget: -1}
+				r2 := &scriptedReader{src: c.IdxRng("gk-repeat", int64(rep)), budget: -1}
+				c.Eval(1)
+				var fp ed25519.PublicKey
+				var fk ed25519.PrivateKey
+				var ferr error
+				pan, pv, _ := core.Guard(func() { fp, fk, ferr = ed25519.GenerateKey(r1) })
+				sp, sk, serr := stded.GenerateKey(r2)
+				if pan || ferr != nil || serr != nil || !bytes.Equal(fp, sp) || !bytes.Equal(fk, sk) {
+					c.Violation("GenerateKey:repeated-entropy", fmt.Sprintf("GenerateKey call %d in a row with the same entropy bytes differs from crypto/ed25519 (err=%v %s)", call+1, ferr, pv), map[string]any{"call": call + 1})
+					break
+				}
+				keys = append(keys, fk)
+			}
+			if len(keys) == 3 {
+				c.Class("generatekey_repeated_entropy_same_as_std")
+			}
+		}
+	}
+	// a private-key slice the caller REUSES: the slice NewKeyFromSeed returned is overwritten in place with another key
+	// (copy), then used to sign and to make a blinded signature - the results are the other key's, byte for byte
+	if c.Next() {
+		r := c.CaseRng()
+		for rep := 0; rep < 24; rep++ {
+			seedA, seedB := r.Bytes(32), r.Bytes(32)
+			msg := r.Bytes(r.IntN(50))
+			c.Eval(1)
+			var sig, sig2 []byte
+			var pub []byte
+			pan, pv, _ := core.Guard(func() {
+				priv := ed25519.NewKeyFromSeed(seedA)
+				ed25519.Sign(priv, msg) // used once as key A
+				copy(priv, stded.NewKeyFromSeed(seedB))
+				sig = ed25519.Sign(priv, msg)
+				pub = []byte(priv.Public().(ed25519.PublicKey))
+				priv2 := ed25519.NewKeyFromSeed(seedA)
+				full := priv2[:len(priv2):cap(priv2)]
+				for i := len(priv2); i < cap(full); i++ { // whatever spare capacity the slice has is the caller's too
+					full[:cap(full)][i] ^= 0xff
+				}
+				copy(priv2, stded.NewKeyFromSeed(seedB))
+				sig2 = ed25519.Sign(priv2, msg)
+			})
+			want := stded.Sign(stded.NewKeyFromSeed(seedB), msg)
+			d := map[string]any{"seed_a": core.Hex(seedA), "seed_b": core.Hex(seedB), "message": core.Hex(msg)}
+			if pan {
+				c.Violation("Sign:key-slice-reused:panic", "panic: "+pv, d)
+				break
+			}
+			if !bytes.Equal(sig, want) || !bytes.Equal(sig2, want) || !bytes.Equal(pub, stded.NewKeyFromSeed(seedB)[32:]) {
+				c.Violation("Sign:key-slice-reused", "a private-key slice returned by NewKeyFromSeed and overwritten in place with another key does not sign as that other key", d)
+				break
+			}
+			c.Class("key_slice_reused_signs_as_its_contents")
+		}
+	}
 
 	// ---------------- D. operation-level model through the hook
 	m.hookOps()
